@@ -11,6 +11,7 @@ import (
 
 	specqbft "github.com/bloxapp/ssv-spec/qbft"
 	spectypes "github.com/bloxapp/ssv-spec/types"
+	"github.com/herumi/bls-eth-go-binary/bls"
 	pubsub "github.com/libp2p/go-libp2p-pubsub"
 	pspb "github.com/libp2p/go-libp2p-pubsub/pb"
 
@@ -92,6 +93,86 @@ func metricsCase(s *session, n int) {
 	if growth > metricsHeapBound {
 		s.report("C08", "unbounded allocation: %d messages with distinct round / type values leave %d bytes of live heap behind (bound %d): metric label values taken from the message",
 			3*n, growth, metricsHeapBound)
+	}
+	s.out.End()
+}
+
+// strangersCase: what the validator keeps after REJECTED input.  Messages for made-up validators (fresh, well-formed
+// BLS public keys nobody registered, all seven roles) are rejected as unknown validator; none of them may leave
+// anything behind - the sender chooses the key, so whatever is kept per message id is kept without bound.
+const strangersHeapBound = 1 << 20 // bytes of live-heap growth allowed for all of them
+
+func strangersCase(s *session, keys int) {
+	u := s.u
+	netCfg := u.netCfg
+	netCfg.PermissionlessActivationEpoch = 1 << 62
+	v := validation.NewMessageValidator(netCfg, validation.WithNodeStorage(u.ns), validation.WithDutyStore(u.duties))
+	sc := newScene(u, hx.NewRand(1, "strangers", 0))
+	sc.val, sc.role, sc.signed, sc.p2p = u.vals[0], spectypes.BNRoleAttester, false, true
+	sc.slot = baseEpoch*slotsInEpoch + 5
+	d := sc.consDraft(sc.prepare(2, 1, sc.value))
+	enc, _ := d.cons.Encode()
+	s.out.Case("prop=%s rejected messages of made-up validators leave nothing behind", s.prop)
+	s.out.Op("STRANGERS", "%d", keys)
+	// the keys first, so that their generation is not part of the measurement
+	pks := make([][]byte, keys)
+	for i := range pks {
+		var sk bls.SecretKey
+		sk.SetByCSPRNG()
+		pks[i] = sk.GetPublicKey().Serialize()
+	}
+	roles := []spectypes.BeaconRole{spectypes.BNRoleAttester, spectypes.BNRoleAggregator, spectypes.BNRoleProposer,
+		spectypes.BNRoleSyncCommittee, spectypes.BNRoleSyncCommitteeContribution, spectypes.BNRoleValidatorRegistration,
+		spectypes.BNRoleVoluntaryExit}
+	panicked := ""
+	rejected := 0
+	var before uint64
+	func() {
+		defer func() {
+			if r := recover(); r != nil {
+				panicked = fmt.Sprint(r)
+			}
+		}()
+		// First every key once (role 0): bounded caches keyed by the public key (the LRU of deserialised BLS keys)
+		// fill up here and are not part of the measurement.  Then the measured pass: the same keys under the other
+		// six roles - new message ids, no new keys.
+		for pass, rs := range [][]spectypes.BeaconRole{roles[:1], roles[1:]} {
+			if pass == 1 {
+				before = liveHeap()
+			}
+			for _, pk := range pks {
+				for _, role := range rs {
+					id := spectypes.NewMsgID(spectypes.DomainType(d.domain), pk, role)
+					raw, err := commons.EncodeNetworkMsg(&spectypes.SSVMessage{MsgType: spectypes.SSVConsensusMsgType, MsgID: id, Data: enc})
+					if err != nil {
+						continue
+					}
+					// the topic of that key (the first five bytes of the key, big endian, modulo the subnet count)
+					var prefix uint64
+					for _, b := range pk[:5] {
+						prefix = prefix<<8 | uint64(b)
+					}
+					topic := fmt.Sprintf("ssv.v2.%d", prefix%128)
+					if v.ValidatePubsubMessage(nil, "", &pubsub.Message{Message: &pspb.Message{Data: raw, Topic: &topic}}) != pubsub.ValidationAccept {
+						rejected++
+					}
+				}
+			}
+		}
+	}()
+	after := liveHeap()
+	runtime.KeepAlive(v) // what the validator holds is what is measured: it must be alive at the second measurement
+	runtime.KeepAlive(pks)
+	growth := int64(after) - int64(before)
+	s.out.Note("strangers: %d messages (%d not accepted), the last %d measured: live heap %d -> %d bytes (growth %d, bound %d)", keys*len(roles), rejected, keys*(len(roles)-1), before, after, growth, strangersHeapBound)
+	s.out.Count("strangers_messages")
+	s.out.Dist["fuzz_inputs"] += keys * len(roles)
+	if panicked != "" {
+		s.report("C08", "panic: ValidatePubsubMessage on a message of a made-up validator: %s", panicked)
+	}
+	if growth > strangersHeapBound {
+		s.report("C08", "unbounded allocation: %d rejected messages of made-up validators leave %d bytes of live heap behind (bound %d): something is kept per message id of validators nobody registered",
+			keys*len(roles), growth, strangersHeapBound)
 	}
 	s.out.End()
 }
